@@ -291,14 +291,24 @@ fn stub_random<T>() -> T {
 }
 
 fn roundtrip_lemma(sender_is_client: bool, len: usize) {
+    roundtrip_lemma_queued(sender_is_client, len, 0)
+}
+
+/// `queued` bytes of earlier frames are already waiting in the write buffer (several messages encoded
+/// before a flush): they must stay untouched and the new frame must still decode to the same message.
+fn roundtrip_lemma_queued(sender_is_client: bool, len: usize, queued: usize) {
     let payload: [u8; PAYMAX] = kani::any();
     let fin: bool = kani::any();
     let opb: u8 = kani::any();
     kani::assume(valid_op(opb));
     let op = OpCode::from(opb);
     let mut wire = BytesMut::with_capacity(64);
+    let earlier: [u8; 5] = kani::any();
+    wire.extend_from_slice(&earlier[..queued]);
     Parser::write_message(&mut wire, &payload[..len], op, fin, sender_is_client);
-    assert!(wire.len() == 2 + if sender_is_client { 4 } else { 0 } + len, "frame length on the wire");
+    assert!(wire.len() == queued + 2 + if sender_is_client { 4 } else { 0 } + len, "frame length on the wire");
+    assert!(same_slice(&wire[..queued], &earlier[..queued]), "frames already queued in the buffer are not touched");
+    let _ = wire.split_to(queued);
     let r = Parser::parse(&mut wire, sender_is_client, 65536);
     match &r {
         Ok(Some((f, o, pl))) => {
@@ -496,6 +506,15 @@ fn c14_roundtrip_server_to_client_more_t() {
     roundtrip_lemma(false, 4);
     roundtrip_lemma(false, 5);
     roundtrip_lemma(false, 6);
+}
+#[kani::proof]
+#[kani::stub(tracing::callsite::DefaultCallsite::register, stub_tracing_register)]
+#[kani::stub(rand::random, stub_random)]
+#[kani::unwind(12)]
+fn c14_roundtrip_into_nonempty_buffer() {
+    roundtrip_lemma_queued(true, 2, 1);
+    roundtrip_lemma_queued(true, 3, 3);
+    roundtrip_lemma_queued(false, 2, 2);
 }
 #[kani::proof]
 #[kani::stub(tracing::callsite::DefaultCallsite::register, stub_tracing_register)]
